@@ -22,16 +22,27 @@ namespace Beeb.Props.C07
 open Beeb Beeb.HostileL
 
 /-- **No crash site is reachable**: whatever the files contain and whatever the
-    command line is, in the build with assertions and in the NDEBUG build. -/
-theorem C07_no_crash (fs : HostFs) (nd : Bool) (cols : Option Nat) (argv : List Bytes) :
+    command line is, in the build with assertions and in the NDEBUG build.
+    `HostFs.IsBytes fs` says that files consist of bytes (the model's sectors are
+    lists of unbounded naturals; a "byte" ≥ 256 in sector 1 would reach the
+    `buf1[pos+7]` site, which no real file can). -/
+theorem C07_no_crash (fs : HostFs) (nd : Bool) (cols : Option Nat) (argv : List Bytes)
+    (hfs : HostFs.IsBytes fs) :
     (dfsMain fs nd cols argv).crash = none :=
-  dfsMain_no_crash fs nd cols argv
+  dfsMain_no_crash fs nd cols argv hfs
 
 /-- **The exit status is 0 or 1.** (The model does not produce status 2; getopt
     usage errors exit with 1 in main.cc.) -/
-theorem C07_exit_status (fs : HostFs) (nd : Bool) (cols : Option Nat) (argv : List Bytes) :
+theorem C07_exit_status (fs : HostFs) (nd : Bool) (cols : Option Nat) (argv : List Bytes)
+    (hfs : HostFs.IsBytes fs) :
     (dfsMain fs nd cols argv).exit = 0 ∨ (dfsMain fs nd cols argv).exit = 1 :=
-  dfsMain_exit fs nd cols argv
+  dfsMain_exit fs nd cols argv hfs
+
+/-- without the byte hypothesis: the only other outcome is a recorded crash -/
+theorem C07_exit_status' (fs : HostFs) (nd : Bool) (cols : Option Nat) (argv : List Bytes) :
+    (dfsMain fs nd cols argv).exit = 0 ∨ (dfsMain fs nd cols argv).exit = 1 ∨
+    ((dfsMain fs nd cols argv).exit = 134 ∧ (dfsMain fs nd cols argv).crash ≠ none) :=
+  dfsMain_exit' fs nd cols argv
 
 /-- **A non-zero status is always accompanied by a diagnostic on standard error.** -/
 theorem C07_diagnostic (fs : HostFs) (nd : Bool) (cols : Option Nat) (argv : List Bytes)
@@ -54,6 +65,9 @@ theorem C07_fm_decode_bounded (s : Flux.BitStream) :
 theorem C07_mfm_decode_bounded (s : Flux.BitStream) :
     (Flux.decodeMfm s).length ≤ s.bits.size + 2 :=
   decodeMfm_length s
+
+/-- the hypothesis is satisfiable -/
+example : HostFs.IsBytes (fun _ => .missing) := isBytes_example
 
 /-- non-vacuity: a run that fails (no image at the given path) -/
 example : (dfsMain (fun _ => .missing) false none [strBytes "--file", strBytes "x.ssd", strBytes "cat"]).exit = 1 ∧
